@@ -11,6 +11,12 @@ NA = {
 }
 
 CLAIMS = {
+ "C16": dict(design="§2 C16", technique="constant-table extraction checked with math/big against the arithmetic definition + SSA loop-shape recognition + E-PROVE overflow obligations",
+   text="Decides 'exact or refuse, and refuse no earlier than necessary' for CoeffUint64/Coeff: all 289 Pascal cells and all 30 overflow thresholds are checked against their definition (k*C(T,k) <= 2^64-1 < k*C(T+1,k)), and the code is checked to have the loop shape and dominating guards those bounds are about; every other product/sum/unsigned difference in package comb must be bounded by the prover or be a checked-arithmetic idiom (no silent wrap in Coeffs, Rank, Unrank). Does not decide that Rank/Unrank are inverse.",
+   note="64-bit int/uint; math/big; the largest intermediate of acc*=(n-k+i); acc/=i is k*C(n,k) (argued in DESIGN.md)."),
+ "C20": dict(design="§2 C20", technique="CFG path rule on go/ssa for error propagation of every write reaching the io.Writer + E-PROVE domain proof for the callback arguments",
+   text="Decides the fault clause for every failure position: every direct write to w and the Flush of the tabwriter built on w has its error tested, the failure edge returns that error, no return precedes the test (buffered tabwriter cell writes are exempt with a stated reason); and the weight callback is only ever called with 0 <= j < i < n. Does not decide the literal output text.",
+   note="text/tabwriter buffers rows until Flush and returns the underlying write error from Flush."),
  "C04": dict(design="§2 C04", technique="exhaustive field classification + SSA data-flow (transfer) matching Save<->Load + gob type walk + E-EFF purity",
    text="Structural half of resumability, for every save point: each GraphIterator/searchGraph field is classified (an unclassified field fails), every saved field flows iterator->record in Save and record->iterator in Load (graph restored field by field), cache fields are only ever nil after Load, every record field is exported and gob-encodable, Save writes nothing reachable from the iterator and the loaded iterator does not keep the reader. Does not decide equality of the resumed sequence.",
    note="encoding/gob round-trips exported fields; the scratch/cache classification table is trusted beyond its one-line reasons."),
